@@ -119,7 +119,9 @@ func pbDeterminant(r *prng.Rand, n int, e elem, sparse bool) *problem {
 		}
 		return []block{scalarBlock("det", d)}, nil
 	}
-	pb.orc = func(pb *problem, _ []float64, _ func([]*input) ([]float64, string)) oracle { return detOracle(pb.in[0].mat()) }
+	pb.orc = func(pb *problem, _ []float64, _ func([]*input) ([]float64, string)) oracle {
+		return detOracle(pb.in[0].mat())
+	}
 	return finish(pb, e)
 }
 
